@@ -143,6 +143,15 @@ def check(ctx):
                        construct="%s/none-handle/%s" % (e.func, ".".join(loc)),
                        msg="%s.%s() on a handle that can be None (%s): an unsolicited or second PINGRESP raises AttributeError out of dataReceived" % (
                            ".".join(loc), e.a["how"], why))
+        # ---------------- Q6: the deadline of an unanswered PINGREQ is cancelled only by a PINGRESP or by the loss of the connection ----
+        for tr in contexts(cat):
+            for e in tr.events:
+                if e.kind == "CANCEL" and hd.handle_location(e.a["handle"], tr) == ("ping", "alarm"):
+                    ok = tr.kind == "LOSS" or (tr.kind == "NET" and tr.name == "PINGRESP")
+                    ctx.ob("Q6", "%s PINGRESP deadline cancelled only by PINGRESP or connection loss (%s)" % (cq, tr.label()), ok, where=where(e),
+                           function=e.func, construct="%s/deadline-cancel/%s" % (e.func, tr.label()),
+                           msg="the deadline of an outstanding PINGREQ is cancelled in context %s: a later PINGREQ (the periodic call has the same "
+                               "period as the deadline) discards the deadline of an unanswered one and a dead broker is never detected" % tr.label())
         # ---------------- Q4 ----------------
         for tr, what, ok, ev in hd.loss_obligations():
             if "keepalive" in what:
